@@ -405,6 +405,9 @@ func RunReplay(file, repo, verif string) int {
 		return 2
 	}
 	fmt.Printf("obligation: %v\nclause: %v\nnote: %v\n", m["obligation"], m["clause"], m["note"])
+	if bm, ok := m["bounded"].(map[string]interface{}); ok {
+		return replayBounded(bm, repo, verif)
+	}
 	src, _ := m["go_test"].(string)
 	if src == "" {
 		fmt.Println("no replayable input in this file (no-failing-input-found); solver output:")
@@ -417,6 +420,36 @@ func RunReplay(file, repo, verif string) int {
 	out, _ := runOverlayTest(CheckOpts{Repo: repo, VerifDir: verif}, src, "TestGovcReplay")
 	fmt.Println(out)
 	if strings.Contains(out, "REPLAY-CONFIRMED") {
+		return 1
+	}
+	return 0
+}
+
+// replayBounded re-runs one generated case of a bounded stand-in against the repository's current source.
+func replayBounded(bm map[string]interface{}, repo, verif string) int {
+	eng, err := LoadEngine(repo)
+	if err != nil {
+		fmt.Fprintln(os.Stderr, "govc:", err)
+		return 2
+	}
+	fnKey, _ := bm["function"].(string)
+	ct := eng.contracts[fnKey]
+	if ct == nil || ct.Bounded == "" {
+		fmt.Println("no bounded contract for", fnKey)
+		return 2
+	}
+	ff, _ := loadFindings(filepath.Join(verif, "known_findings.json"))
+	workDirRoot = filepath.Join(verif, ".work", fmt.Sprintf("%d", os.Getpid()))
+	os.MkdirAll(workDirRoot, 0o755)
+	defer os.RemoveAll(workDirRoot)
+	src, _ := buildBoundedSource([]*Contract{ct}, ff.Findings)
+	cs, _ := bm["case"].(float64)
+	seed, _ := bm["seed"].(float64)
+	out, _ := runBoundedTest(CheckOpts{Repo: repo, VerifDir: verif}, src, []string{fmt.Sprintf("GOVC_BOUNDED_SEED=%d", int(seed)),
+		fmt.Sprintf("GOVC_BOUNDED_CASE=%d", int(cs)), fmt.Sprintf("GOVC_BOUNDED_N=%d", int(cs)+1)}, 120*time.Second)
+	fmt.Println(out)
+	if strings.Contains(out, "BOUNDED-FAIL") {
+		fmt.Println("REPLAY-CONFIRMED")
 		return 1
 	}
 	return 0
